@@ -162,6 +162,8 @@ func (s *system) Apply(raw json.RawMessage) []seqx.Viol {
 		ids = s.fresh(2)
 	case "insert 3":
 		ids = s.fresh(3)
+	case "insert 90":
+		ids = s.fresh(90)
 	}
 	switch {
 	case strings.HasPrefix(ref.Name, "insert"):
@@ -414,7 +416,11 @@ func (s *system) Check() []seqx.Viol {
 		// filter search: limits x offsets x sorts
 		flt := models.Query{Property: "a", Integer: &models.SearchIntegerOptions{Value: 0, Operator: models.OperatorGreaterOrEq}}
 		matches := len(s.docs)
-		for _, limit := range []int{1, 2, 100} {
+		limits := []int{1, 2, 100}
+		if matches >= 90 {
+			limits = []int{1, 2, 19, 30, 50, 100} // several full shards: limits around a page of one shard
+		}
+		for _, limit := range limits {
 			for _, off := range []int{0, 1} {
 				for _, so := range [][]models.SortOption{nil, {{Property: "a"}, {Property: "name"}}, {{Property: "a", Descending: true}, {Property: "name", Descending: true}}} {
 					res, err := n.SearchPoints(col, models.SearchRequest{Query: flt, Select: []string{"*"}, Sort: so, Offset: off, Limit: limit})
@@ -446,6 +452,11 @@ func (s *system) Check() []seqx.Viol {
 					}
 					if off == 0 && limit >= matches && len(res) != matches {
 						return s.fail("multi-shard-search-misses-points", "%s: %d results, %d points match", desc, len(res), matches)
+					}
+					// every shard is full of matching points and can supply a whole page by itself:
+					// whatever share of the limit each shard is asked for, the merged answer has `limit` results
+					if off == 0 && int64(limit) <= s.cfg.MSPC && matches >= 3*int(s.cfg.MSPC) && len(res) != limit {
+						return s.fail("multi-shard-search-returns-fewer-than-limit", "%s: %d results although each of the %d shards holds at least %d matching points", desc, len(res), len(col.ShardIds), limit)
 					}
 				}
 			}
@@ -542,7 +553,7 @@ func (s *system) Close() {
 }
 
 func master(cfg *harness.Config, rep *harness.Report) {
-	rep.Rule = "deployments: 1-3 real in-process nodes (RPC over loopback, RpcRetries 1) x MaxShardPointCount {1,2} x placement seeds (deterministic shard-uuid streams; the evidence lists the distinct shard->server patterns seen) x {all servers up, server k closed before step j}; every history up to the depth over {insert 2, insert 3, update 1 existing + 1 unknown, delete 1 existing + 1 unknown, delete all}, each request entering through the next live node in rotation. After every request, through EVERY live node: each id is found exactly once iff stored, with its document; filter search for limit {1,2,100} x offset {0,1} x sort {none, asc, desc}: <= limit, no duplicate, every result a stored point, globally sorted, exact set when limit covers the matches; flat search globally ordered by hybrid score; update/delete failure lists = requested ids no shard processed, 'not found' iff every shard answered"
+	rep.Rule = "deployments: 1-3 real in-process nodes (RPC over loopback, RpcRetries 1) x MaxShardPointCount {1,2} x placement seeds (deterministic shard-uuid streams; the evidence lists the distinct shard->server patterns seen) x {all servers up, server k closed before step j}; every history up to the depth over {insert 2, insert 3, (one deployment with 30 points per shard: insert 90,) update 1 existing + 1 unknown, delete 1 existing + 1 unknown, delete all}, each request entering through the next live node in rotation. After every request, through EVERY live node: each id is found exactly once iff stored, with its document; filter search for limit {1,2,100} x offset {0,1} x sort {none, asc, desc}: <= limit, no duplicate, every result a stored point, globally sorted, exact set when limit covers the matches, exactly `limit` results when every shard alone could fill the page; flat search globally ordered by hybrid score; update/delete failure lists = requested ids no shard processed, 'not found' iff every shard answered"
 	rep.Assumptions = []string{"ids unique per collection (the API's precondition)", "the offset heuristic is not claimed exact", "when the user's own routing node is down nothing is claimed (the collection record is unreachable)", "a search with a shard server down may fail as a whole"}
 	p := pool.New(pool.Options{CPUsPerWorker: 2, JobTimeout: 180 * time.Second})
 	if cfg.Replay != "" {
@@ -578,6 +589,8 @@ func master(cfg *harness.Config, rep *harness.Report) {
 			}
 		}
 	}
+	// several full shards: 90 points at 30 per shard on two nodes
+	specs = append(specs, seqx.Spec{Name: "2nodes/mspc30/90-points", Cfg: cfgT{2, 30, 1, -1, 0}, Starts: [][]any{{opRef{"insert 90"}}}, Alphabet: []any{opRef{"delete 1 existing + 1 unknown"}, opRef{"update 1 existing + 1 unknown"}}, Depth: 1})
 	seqx.Explore(cfg, rep, p, specs)
 }
 
